@@ -127,14 +127,18 @@ def r1(R1, cfg, F, hr):
             why = 'new_dynamic does not receive (id, value) unchanged'
     R1.check(ok, cfg, b.path, 'dynamic-iff-HOT_RELOADED-and-mutable', 'CacheEntry::new: %s' % why, nd[0].loc() if nd else b.loc())
     # the _mutable closures: get_or_insert passes has_reloader, loads pass cache.is_hot_reloaded
-    for p, want in (('anycache::CacheExt::add_any::{closure#0}', '_has_reloader'), ('key::Inner::of_asset::load_entry::{closure#0}', 'is_hot_reloaded')):
+    gi = F.body('anycache::CacheExt::_get_or_insert')
+    gmk = [c for c in gi.calls() if c.callee and c.callee.best == 'entry::CacheEntry::new'] if gi else []
+    glit = agg_direct(gi, gmk[0].args[2]) if len(gmk) == 1 and len(gmk[0].args) > 2 else None
+    gclo = glit['rv'].get('closure') if glit is not None else None
+    for p, want in ((gclo or 'the closure get_or_insert passes to CacheEntry::new', '_has_reloader'), ('key::Inner::of_asset::load_entry::{closure#0}', 'is_hot_reloaded')):
         cb = F.body(p)
         if not cb:
             R1.missing(cfg, p)
             continue
         cs = [x.callee.name for x in cb.calls() if x.callee]
         ok = cs == [want] and cb.calls()[0].dest['l'] == 0
-        if not ok and 'add_any' in p and not cb.calls():
+        if not ok and want == '_has_reloader' and not cb.calls():
             # values stored with get_or_insert are never written by the reloader (R3, R6, R8): a constant is as good
             rets = [st for _, _, st in cb.assigns() if st['place']['l'] == 0]
             ok = len(rets) == 1 and rets[0]['rv']['k'] == 'use' and rets[0]['rv']['op'].get('text') in ('true', 'false')
@@ -185,7 +189,7 @@ def r3(R3, cfg, F):
     cs = sorted({(c.body.root, c.body.kind) for c in F.calls_to(r'^hot_reloading::HotReloader::add_asset$')})
     R3.check(cs == [('anycache::RawCache::add_asset', 'Closure')], cfg, 'hot_reloading::HotReloader::add_asset', 'callers={on_insert callback of RawCache::add_asset}',
              'reloadable registration may happen only in the on_insert callback built by RawCache::add_asset; callers %s' % cs)
-    for p in ('anycache::CacheExt::_get_or_insert', 'anycache::CacheExt::add_any', '<T as anycache::Cache>::insert'):
+    for p in ('anycache::CacheExt::_get_or_insert', '<T as anycache::Cache>::insert'):
         if not F.body(p):
             R3.missing(cfg, p)
             continue
